@@ -98,30 +98,41 @@ fn check_transition(a: &[St], b: &[St], policy: LoadBalancingAlgorithms, key: u6
 
 fn main() {
     let thorough = std::env::args().nth(1).map(|s| s == "thorough").unwrap_or(false);
-    let n = if thorough { 4 } else { 3 };
     let mut per: Vec<St> = vec![];
     for status in 0..3u8 { for unhealthy in [false, true] { for failed in [false, true] { for backup in [false, true] { per.push(St { status, unhealthy, failed, backup }); } } } }
+    // a smaller per-backend alphabet for the 4-backend universe of the thorough tier (24^4 lists x 6 policies x keys does
+    // not finish in an hour): {Normal, Closed} x {healthy, unhealthy} x {primary, backup} and one backing-off primary
+    let mut per_small: Vec<St> = vec![];
+    for status in [0u8, 2] { for unhealthy in [false, true] { for backup in [false, true] { per_small.push(St { status, unhealthy, failed: false, backup }); } } }
+    per_small.push(St { status: 0, unhealthy: false, failed: true, backup: false });
     let policies = [LoadBalancingAlgorithms::RoundRobin, LoadBalancingAlgorithms::Random, LoadBalancingAlgorithms::LeastLoaded, LoadBalancingAlgorithms::PowerOfTwo, LoadBalancingAlgorithms::Hrw, LoadBalancingAlgorithms::Maglev];
-    let mut idx = vec![0usize; n];
+    let keys_quick: Vec<Option<u64>> = vec![None, Some(0x9e3779b97f4a7c15u64), Some(7)];
+    let keys_thorough: Vec<Option<u64>> = vec![None, Some(0x9e3779b97f4a7c15u64), Some(7), Some(0xc12), Some(u64::MAX)];
+    let universes: Vec<(usize, &Vec<St>, &Vec<Option<u64>>)> = if thorough { vec![(3, &per, &keys_thorough), (4, &per_small, &keys_quick)] } else { vec![(3, &per, &keys_quick)] };
     let (mut count, mut failures) = (0u64, Vec::<(String, String)>::new());
-    'outer: loop {
-        let states: Vec<St> = idx.iter().map(|&i| per[i]).collect();
-        for p in policies {
-            for key in [None, Some(0x9e3779b97f4a7c15u64), Some(7)] {
-                count += 1;
-                if let Err(e) = check(&states, p, key) {
-                    failures.push((format!("backends {states:?}, policy {p:?}, key {key:?}"), e));
-                    break 'outer;
+    'outer: for (n, alphabet, keys) in universes {
+        let mut idx = vec![0usize; n];
+        loop {
+            let states: Vec<St> = idx.iter().map(|&i| alphabet[i]).collect();
+            for p in policies {
+                for key in keys.iter().copied() {
+                    count += 1;
+                    if let Err(e) = check(&states, p, key) {
+                        failures.push((format!("backends {states:?}, policy {p:?}, key {key:?}"), e));
+                        break 'outer;
+                    }
                 }
             }
-        }
-        let mut k = n;
-        loop {
-            if k == 0 { break 'outer; }
-            k -= 1;
-            idx[k] += 1;
-            if idx[k] < per.len() { break; }
-            idx[k] = 0;
+            let mut k = n;
+            let mut wrapped = false;
+            loop {
+                if k == 0 { wrapped = true; break; }
+                k -= 1;
+                idx[k] += 1;
+                if idx[k] < alphabet.len() { break; }
+                idx[k] = 0;
+            }
+            if wrapped { break; }
         }
     }
     // transitions (HRW, Maglev): 4 primary backends, each {healthy, unhealthy, closed} before and after
@@ -139,5 +150,6 @@ fn main() {
         } }
     }
     let fjson: Vec<String> = failures.iter().map(|(i, o)| format!("{{\"input\": {i:?}, \"observed\": {o:?}}}")).collect();
-    println!("{{\"bound\": \"{n} backends in every combination of 24 per-backend states x 6 policies x 3 affinity keys, 4 selections each, plus every sticky id; plus, for HRW and Maglev, every change of 4 backends between healthy / unhealthy / closed states with the key asked before and 4 times after\", \"states\": {count}, \"pairs\": {count}, \"nontrivial_pairs\": {count}, \"failures\": [{}]}}", fjson.join(", "));
+    let universe_text = if thorough { "3 backends in every combination of 24 per-backend states x 6 policies x 5 affinity keys and 4 backends in every combination of 9 per-backend states x 6 policies x 3 affinity keys" } else { "3 backends in every combination of 24 per-backend states x 6 policies x 3 affinity keys" };
+    println!("{{\"bound\": \"{universe_text}, 4 selections each, plus every sticky id; plus, for HRW and Maglev, every change of 4 backends between healthy / unhealthy / closed states with the key asked before and 4 times after\", \"states\": {count}, \"pairs\": {count}, \"nontrivial_pairs\": {count}, \"failures\": [{}]}}", fjson.join(", "));
 }
